@@ -536,7 +536,16 @@ func runFSIndex(c *core.Ctx) {
 					}
 					if ct, i := an.CallOf(fileV); ct != nil && i == 0 && an.IsFunc(ct, "os", "CreateTemp") {
 						tmp = ct
-						dirRoot, dirPath := accessPath(an.Origin(ct.Call.Args[0]))
+						dirArg := an.Origin(ct.Call.Args[0])
+						// the helper is told the directory: the value at its call site counts
+						if q, isParam := dirArg.(*ssa.Parameter); isParam && len(viaHelper) > 0 && viaHelper[0].Call != nil {
+							for k, hp := range q.Parent().Params {
+								if hp == q && k < len(viaHelper[0].Call.Call.Args) && viaHelper[0].Call.Call.StaticCallee() == q.Parent() {
+									dirArg = an.Origin(viaHelper[0].Call.Call.Args[k])
+								}
+							}
+						}
+						dirRoot, dirPath := accessPath(dirArg)
 						parts := pathParts(p)
 						if len(parts) > 0 {
 							dr, dp := accessPath(parts[0])
